@@ -63,7 +63,11 @@ def expected_abuf(case, h, outs):
     """Cumulative expectation after each batch from the waveforms as produced."""
     meta = h.meta
     shape = outs[0]['abuf'].shape
-    acc = np.zeros(shape, dtype=np.int64)
+    rows = shape[0]
+    for o in outs:
+        for (row, lane), (op, w) in o['produced'].items():
+            rows = max(rows, actrl_row(case, op[1], meta.n_lines)[0] + 1)
+    acc = np.zeros((rows, shape[1]), dtype=np.int64)     # may have more rows than the buffer the library allocated
     per_batch = []
     for o in outs:
         for (row, lane), (op, w) in o['produced'].items():
@@ -98,9 +102,13 @@ def execute(case):
         if case.get('actrl'):
             exp = expected_abuf(case, h, outs)
             for bno, (o, e) in enumerate(zip(outs, exp)):
-                if o['abuf'].shape != e.shape or not np.array_equal(o['abuf'].astype(np.int64), e):
-                    d = np.argwhere(o['abuf'].astype(np.int64) != e)[0] if o['abuf'].shape == e.shape else [0, 0]
-                    res.violate('abuf-mismatch', f'{label} batch {bno}: abuf[{d[0]},{d[1]}] = {o["abuf"][d[0], d[1]]}, weighted transition count of the produced waveforms = {e[d[0], d[1]]}')
+                got = np.zeros(e.shape, dtype=np.int64)
+                r0 = min(e.shape[0], o['abuf'].shape[0])
+                got[:r0] = o['abuf'][:r0].astype(np.int64)
+                if not np.array_equal(got, e):
+                    d = np.argwhere(got != e)[0]
+                    res.violate('abuf-mismatch', f'{label} batch {bno}: abuf[{d[0]},{d[1]}] = {got[d[0], d[1]] if d[0] < o["abuf"].shape[0] else "(no such row: abuf has %d rows)" % o["abuf"].shape[0]}, '
+                                                 f'weighted transition count of the produced waveforms = {e[d[0], d[1]]}')
                     return res
             # probe: two ops of one level share an accumulator
             for a, b in zip(meta.level_starts, meta.level_stops):
